@@ -118,7 +118,22 @@ def replay(spec, ctx, on_step=None, upto=None):
     info = {"calls": 0, "multilevel": False, "disparity_added": False, "region": False, "containers": set()}
     steps = spec["steps"] if upto is None else spec["steps"][:upto]
     for step in steps:
-        if step["kind"] == "refine":
+        if step["kind"] == "explicit":
+            # explicit marks {level: [cells]}; cells that are no longer active (already refined through a finite
+            # disparity) are dropped from the request
+            marks = {}
+            for l, cs in step["marks"].items():
+                l = int(l)
+                keep = [tuple(c) for c in cs if l < ref.numlevels() and tuple(c) in ref.active[l]]
+                if keep:
+                    marks[l] = keep
+            if not marks:
+                continue
+            arg = {l: _container(step.get("container", "set"), cs) for l, cs in marks.items()}
+            returned = ctx.sut(hs.refine, arg, what="HSpace.refine")
+            info["containers"].add(step.get("container", "set"))
+            info["multilevel"] = info["multilevel"] or len(marks) > 1
+        elif step["kind"] == "refine":
             marks = resolve_marks(ref, step["marks"], spec["max_levels"])
             if not marks:
                 continue
